@@ -93,7 +93,7 @@ CLAIMS = {
          'transaction; T2/T3 no possibly-Err return is CFG-reachable from any write to *self (direct, or via callee mod/ref summaries) or from commit(); '
          'T4 the three transaction wrappers take the checkpoint before the closure and roll back to it on exactly the failing paths (edge-removal '
          'reachability); T5 who may write bits_read (skip_bits, rollback, commit), buffer and source, bytes leave the retained buffer only in commit, and who may call commit; T6 byte-wise refill so a failed fill loses nothing; '
-         'C14 A/E who moves the position and by how much, and the forms of rollback / commit / ensure_bits (re-run); T7 all 23 parser functions are single transactions and all 62 consuming primitive sites sit inside transaction closures. '
+         'C14 A/E who moves the position and by how much, and the forms of rollback / commit / ensure_bits (re-run); C15.EK only io::ErrorKind::UnexpectedEof is taken for the end of a picture - a source that has nothing yet (WouldBlock, Interrupted) fails the call instead of committing a truncated picture; T7 all 23 parser functions are single transactions and all 62 consuming primitive sites sit inside transaction closures. '
          'The clause "retry after more data behaves as if all data had been present" is decided only through these conditions (a split inside '
          'macroblock data ends the picture successfully, so that clause is vacuous there).',
     technique='CFG reachability + dominance rules and interprocedural mod/ref effect summaries over MIR', ref='6/C05'),
